@@ -59,9 +59,12 @@ Proof.
     + now rewrite IH, or_first_assoc.
 Qed.
 
+Definition broken (t : term) : bool := match t with TBroken => true | _ => false end.
+
 Lemma reach_stream sc bs t rest :
-  reach (Stream sc bs t :: rest) = bs ++ match t with TEos => reach rest | _ => [] end.
-Proof. destruct t; cbn [reach]; now rewrite ?app_nil_r. Qed.
+  reach (Stream sc bs t :: rest) =
+  if broken t then [] else bs ++ match t with TEos => reach rest | _ => [] end.
+Proof. destruct t; cbn [reach broken]; now rewrite ?app_nil_r. Qed.
 
 Lemma find_loop_spec bd : forall call,
   find_loop bd call =
@@ -70,13 +73,23 @@ Proof.
   induction bd as [|g rest IH]; intro call.
   - cbn. now rewrite or_first_none_r.
   - destruct g as [sc bs t|]; [|cbn; now rewrite or_first_none_r].
-    cbn [find_loop]. rewrite scan_spec. cbn [or_first]. rewrite reach_stream.
+    destruct (broken t) eqn:Hb.
+    { destruct t; try discriminate. cbn. now rewrite or_first_none_r. }
+    rewrite reach_stream, Hb.
+    assert (Hfl : find_loop (Stream sc bs t :: rest) call =
+                  let '(st, c) := scan_batches bs None in
+                  let call' := or_first call c in
+                  match st with
+                  | Some _ => (st, call')
+                  | None => match t with TEos => find_loop rest call' | _ => (None, call') end
+                  end) by (destruct t; try discriminate; reflexivity).
+    rewrite Hfl. clear Hfl. rewrite scan_spec. cbn [or_first].
     destruct (first_some cursor_of bs) as [tok|] eqn:Hc.
     + rewrite first_some_app, Hc. cbn [or_first].
       now rewrite (upto_app_some _ _ _ Hc).
     + rewrite first_some_app, Hc. cbn [or_first].
       rewrite (upto_app_none _ _ Hc), first_some_app, (upto_none _ Hc).
-      destruct t.
+      destruct t; try discriminate.
       * now rewrite IH, or_first_assoc.
       * cbn [first_some upto_cursor]. now rewrite or_first_none_r.
       * cbn [first_some upto_cursor]. now rewrite or_first_none_r.
@@ -115,12 +128,14 @@ Qed.
 
 Lemma find_tokens_stamped pre sc bs1 tok call bs2 t post :
   clean pre = true -> first_some cursor_of (reach pre ++ bs1) = None -> tok <> [] ->
+  t <> TBroken ->
   find_stream_tokens (pre ++ Stream sc (bs1 ++ token_batch sc tok call :: bs2) t :: post)
   = (Some tok, or_first (first_some call_of (reach pre ++ bs1))
                         (match call with [] => None | _ => Some call end)).
 Proof.
-  intros Hclean Hnone Htok. rewrite find_tokens_exact. unfold spec_tokens.
+  intros Hclean Hnone Htok Ht. rewrite find_tokens_exact. unfold spec_tokens.
   rewrite (reach_app _ _ Hclean), reach_stream.
+  replace (broken t) with false by (now destruct t).
   set (X := match t with TEos => reach post | _ => [] end).
   replace (reach pre ++ (bs1 ++ token_batch sc tok call :: bs2) ++ X)
     with ((reach pre ++ bs1) ++ token_batch sc tok call :: (bs2 ++ X))
@@ -141,7 +156,7 @@ Qed.
 Lemma find_pv_exact bd : find_protocol_version bd = spec_pv bd.
 Proof.
   unfold find_protocol_version, spec_pv, first_stream.
-  destruct bd as [|[sc bs t|] rest]; try reflexivity. apply fpv_spec.
+  destruct bd as [|[sc bs t|] rest]; try reflexivity. destruct t; try reflexivity; apply fpv_spec.
 Qed.
 
 (* ---- the metadata WriteRequest stamps ---------------------------------------- *)
@@ -293,7 +308,7 @@ Qed.
 Lemma read_unary_exact bd : read_unary_result bd = spec_ur bd.
 Proof.
   unfold read_unary_result, spec_ur, first_stream.
-  destruct bd as [|[sc bs t|] rest]; try reflexivity. apply rur_spec.
+  destruct bd as [|[sc bs t|] rest]; try reflexivity. destruct t; try reflexivity; apply rur_spec.
 Qed.
 
 Lemma drop_logs_app logs l : forallb is_log logs = true -> drop_logs (logs ++ l) = drop_logs l.
@@ -309,18 +324,23 @@ Proof. intro H. cbn [drop_logs]. now rewrite H. Qed.
 Lemma is_log_rows b : b_rows b <> 0 -> is_log b = false.
 Proof. intro H. unfold is_log. apply N.eqb_neq in H. now rewrite H. Qed.
 
+Lemma read_unary_stream sc bs t rest :
+  read_unary_result (Stream sc bs t :: rest) = if broken t then None else rur_batches sc bs.
+Proof. now destruct t. Qed.
+
 Lemma unary_skips_logs sc logs b more t rest :
-  forallb is_log logs = true -> b_rows b <> 0 ->
+  t <> TBroken -> forallb is_log logs = true -> b_rows b <> 0 ->
   read_unary_result (Stream sc (logs ++ b :: more) t :: rest) = decide_result sc b.
 Proof.
-  intros Hl Hr. cbn [read_unary_result]. rewrite rur_spec, (drop_logs_app _ _ Hl).
+  intros Ht Hl Hr. rewrite read_unary_stream. replace (broken t) with false by (now destruct t).
+  rewrite rur_spec, (drop_logs_app _ _ Hl).
   rewrite (drop_logs_head _ _ (is_log_rows _ Hr)). apply N.eqb_neq in Hr. now rewrite Hr.
 Qed.
 
 Lemma unary_log_only sc logs t rest :
   forallb is_log logs = true -> read_unary_result (Stream sc logs t :: rest) = None.
 Proof.
-  intro Hl. cbn [read_unary_result]. rewrite rur_spec.
+  intro Hl. rewrite read_unary_stream. destruct (broken t); [reflexivity|]. rewrite rur_spec.
   rewrite <- (app_nil_r logs), (drop_logs_app _ _ Hl). reflexivity.
 Qed.
 
@@ -328,7 +348,8 @@ Lemma unary_zero_row_not_log sc logs b more t rest :
   forallb is_log logs = true -> b_rows b = 0 -> log_level_skippable b = false ->
   read_unary_result (Stream sc (logs ++ b :: more) t :: rest) = None.
 Proof.
-  intros Hl Hr Hs. cbn [read_unary_result]. rewrite rur_spec, (drop_logs_app _ _ Hl).
+  intros Hl Hr Hs. rewrite read_unary_stream. destruct (broken t); [reflexivity|].
+  rewrite rur_spec, (drop_logs_app _ _ Hl).
   rewrite drop_logs_head by (unfold is_log; now rewrite Hs, andb_false_r).
   now rewrite Hr.
 Qed.
@@ -395,7 +416,8 @@ Lemma unary_rewrap bd sc r r' rest :
   exists s, write_unary_result sc r' = Some s /\ read_unary_result (s :: rest) = Some (sc, r').
 Proof.
   intros Hread Henv. destruct (envelope_ok_inv _ Henv) as [n ->].
-  destruct bd as [|[sc0 bs t|] rest0]; try discriminate. cbn [read_unary_result] in Hread.
+  destruct bd as [|[sc0 bs t|] rest0]; try discriminate. rewrite read_unary_stream in Hread.
+  destruct (broken t); [discriminate|].
   apply rur_some_has_field in Hread as [<- Hf].
   cbn [field_index] in Hf. destruct (beqb n f_result) eqn:En; [|contradiction].
   eexists. split; [reflexivity|].
@@ -446,6 +468,8 @@ Proof. apply list_eqb_refl. now intros []. Qed.
 Lemma spec_request_model bd : spec_request bd (view (read_request bd)) = true.
 Proof.
   destruct bd as [|[sc [|b bs] t|] rest]; try reflexivity; [now destruct t|].
+  replace (spec_request (Stream sc (b :: bs) t :: rest)) with
+    (spec_request (Stream sc (b :: bs) TEos :: rest)) by (now destruct t).
   cbn [read_request spec_request]. unfold validate.
   destruct (get k_method (b_meta b)) as [meth|]; [|reflexivity].
   destruct (utf8_valid meth) eqn:Hu; [|reflexivity]. cbn [negb].
@@ -498,11 +522,35 @@ Proof.
   apply pair_eqb_refl; [apply schema_eqb_refl | apply beqb_refl].
 Qed.
 
+(* a body whose first stream the framing guard refuses yields nothing *)
+Lemma refused_yields_nothing bd :
+  guard_first bd = false ->
+  find_stream_tokens bd = (None, None) /\ find_protocol_version bd = [] /\ read_unary_result bd = None.
+Proof.
+  destruct bd as [|[sc bs t|] rest]; [discriminate | | now repeat split].
+  destruct t; try discriminate. now repeat split.
+Qed.
+
+Lemma legacy_refuted :
+  exists bd, guard_first bd = false /\ find_protocol_version_legacy bd <> [].
+Proof.
+  exists [Stream [] [ {| b_rows := 0; b_meta := [(k_protocol_version, str "1.2.3")]; b_cols := [] |} ] TBroken].
+  split; [reflexivity | vm_compute; discriminate].
+Qed.
+
+Lemma eqb_refl b : Bool.eqb b b = true. Proof. now destruct b. Qed.
+
 Lemma model_meets_spec i : spec_ok i (model i) = true.
 Proof.
   destruct i as [ss|]; [|reflexivity].
-  cbn [model spec_ok]. cbn [o_panics o_body o_rr o_tok o_state o_call o_pv o_ur].
-  rewrite body_eqb_refl, spec_request_model.
+  cbn [model spec_ok]. cbn [o_panics o_body o_rr o_tok o_state o_call o_pv o_ur o_guard o_guard_all].
+  rewrite body_eqb_refl, spec_request_model, !eqb_refl.
+  replace (guard_first (wire ss)
+           || tok_eqb (find_stream_tokens (wire ss)) (None, None)
+              && beqb (find_protocol_version (wire ss)) [] && ur_eqb (read_unary_result (wire ss)) None)
+    with true
+    by (destruct (guard_first (wire ss)) eqn:Hg; [reflexivity|];
+        destruct (refused_yields_nothing _ Hg) as (-> & -> & ->); reflexivity).
   unfold find_state_token, find_call_state_token.
   rewrite find_tokens_exact, tok_eqb_refl, !ob_eqb_refl.
   rewrite find_pv_exact, beqb_refl, read_unary_exact, ur_eqb_refl.
@@ -522,6 +570,10 @@ Section Codec.
   Hypothesis dec_enc : forall sc bs rest,
     dec (enc (Stream sc bs TEos) ++ rest) = Some (Stream sc bs TEos, rest).
   Hypothesis enc_nonempty : forall g, enc g <> [].
+  (* checkIPCStreamFraming on the bytes at the current offset; it never refuses
+     a stream the codec reads *)
+  Variable guard : bytes -> bool.
+  Hypothesis guard_enc : forall sc bs rest, guard (enc (Stream sc bs TEos) ++ rest) = true.
 
   Fixpoint find_bytes (fuel : nat) (data : bytes) (state call : option bytes)
     : option bytes * option bytes :=
@@ -531,6 +583,7 @@ Section Codec.
         match data with
         | [] => (state, call)                          (* r.Len() == 0 *)
         | _ =>
+            if negb (guard data) then (state, call) else  (* framing refused *)
             match dec data with
             | None | Some (Junk, _) => (state, call)   (* the stream does not open *)
             | Some (Stream _ bs t, rest) =>
@@ -565,7 +618,7 @@ Section Codec.
       unfold encode in *. cbn [map concat] in *. cbn [find_bytes].
       destruct (enc (Stream sc bs TEos) ++ concat (map enc ss)) eqn:Hd.
       { apply app_eq_nil in Hd as [Hd _]. now apply enc_nonempty in Hd. }
-      rewrite <- Hd in Hf |- *. rewrite dec_enc. cbn [find_loop].
+      rewrite <- Hd in Hf |- *. rewrite guard_enc, dec_enc. cbn [negb find_loop].
       destruct (scan_batches bs None) as [s c]. cbn [or_first].
       destruct s; [reflexivity|].
       rewrite app_length in *.
